@@ -934,6 +934,14 @@ theorem C23_concurrent (cap : Nat) (hcap : 0 < cap) (ttl : Int) (ls : List Label
     (by rw [← distinctOthers_map_toCall]; exact hD)
   exact key
 
+/-- under a monotone true clock every linearised call read the clock no later than it acquired the lock
+(`now_k ≤ trueTime(acquire_k)`), and the linearisation order is the order of the acquisition times -/
+theorem C23_reading_le_acquire (cap : Nat) (ttl : Int) (ls : List Label) (s : CSt)
+    (h : (ts true cap ttl).run ls = some s) :
+    (∀ e ∈ s.hist, e.op.now ≤ e.tacq ∧ e.tacq ≤ s.clock) ∧ s.hist.Pairwise (fun a b => a.tacq ≤ b.tacq) := by
+  have ht := tinv_reachable (TS.reachable_of_run _ h)
+  exact ⟨ht.hist, ht.sorted⟩
+
 /-- what the driver's `observe` accepts (harness events with the internal critical-section steps inserted
 by the model) is a run of the threaded model, so all of the above applies to every validated trace -/
 theorem C23_observe_sound (mono : Bool) (cap : Nat) (ttl : Int) (ls : List Label) (s : CSt)
